@@ -2,6 +2,7 @@ package c04
 
 import (
 	"bytes"
+	"crypto/sha256"
 	"fmt"
 	"os"
 	"path/filepath"
@@ -27,11 +28,11 @@ type caseA struct {
 	Versioning bool     `json:"versioning"`
 	Sidecar    bool     `json:"sidecar"`
 	Spec       cat.Spec `json:"spec"`
-	Caller     string   `json:"caller"` // alice (owner of A only) or root
-	Param      string   `json:"param"`  // key, bucket, copy-source, prefix, marker, start-after, continuation-token, key-marker, version-id-marker, upload-id-marker, versionId, uploadId, partNumber, delimiter, admin-bucket, admin-owner, admin-access, delete-key, delete-version
+	Caller     string   `json:"caller"`        // alice (owner of A only) or root
+	Param      string   `json:"param"`         // key, bucket, copy-source, prefix, marker, start-after, continuation-token, key-marker, version-id-marker, upload-id-marker, versionId, uploadId, partNumber, delimiter, admin-bucket, admin-owner, admin-access, delete-key, delete-version
 	Dup        int      `json:"dup,omitempty"` // query parameters: 1 = a harmless second occurrence after the hostile one, 2 = before it
-	Hostile    string   `json:"hostile"`  // the string as the client means it (after one level of percent-decoding)
-	Spelling   string   `json:"spelling"` // plain, raw, pct, pct-lower, double, mixed
+	Hostile    string   `json:"hostile"`       // the string as the client means it (after one level of percent-decoding)
+	Spelling   string   `json:"spelling"`      // plain, raw, pct, pct-lower, double, mixed
 	Proc       bool     `json:"proc,omitempty"`
 }
 
@@ -79,9 +80,9 @@ type world struct {
 }
 
 var (
-	procW     *world
-	procUses  int
-	procWKey  string
+	procW    *world
+	procUses int
+	procWKey string
 )
 
 // procWorld: a real gateway process (unprivileged uid), rebuilt every 150 cases because
@@ -145,7 +146,7 @@ var templates = []string{
 	"{outside}/canary.txt", "{outside}/planted", "{root}/bkt-b/secret.txt", "{iam}/users.json", "/etc/hostname", "//{outside}/canary.txt",
 	"..\\bkt-b\\secret.txt", "..%2fbkt-b%2fsecret.txt", "%2e%2e/bkt-b/secret.txt", "..\x00/bkt-b/secret.txt", "../bkt-b/secret.txt\x00.jpg",
 	"\xc0\xae\xc0\xae/bkt-b/secret.txt", "．．/bkt-b/secret.txt", ".../bkt-b/secret.txt", "..;/bkt-b/secret.txt", ". ./bkt-b/secret.txt",
-	".sgwtmp/multipart", ".sgwtmp/../../bkt-b/secret.txt", "../bkt-b/.sgwtmp/x", "../../ver/bkt-v", "../../ver/planted", "../../../root/bkt-b/secret.txt", "../../../outside/canary.txt", "../../../../outside/canary.txt", "../../sidecar/bkt-b/secret.txt/meta/etag",
+	".sgwtmp/multipart", ".sgwtmp/multipart/", "{mp1part}", "{mp1part}", ".sgwtmp/x", ".sgwtmp/../../bkt-b/secret.txt", "../bkt-b/.sgwtmp/x", "../../ver/bkt-v", "../../ver/planted", "../../../root/bkt-b/secret.txt", "../../../outside/canary.txt", "../../../../outside/canary.txt", "../../sidecar/bkt-b/secret.txt/meta/etag",
 	"../../sidecar/planted", "bkt-b/secret.txt", "../bkt-a/../bkt-b/secret.txt", "obj1/../../bkt-b/secret.txt", "obj1/..", "dir/..", "dir/../..", ".", "./", "/",
 	"../bkt-l/locked", "../bkt-new-by-traversal", "../bkt-new-by-traversal/", "../bkt-b/newdir/",
 	// one level less: for parameters that are joined to the storage root itself (bucket names, the bucket part of a copy source)
@@ -154,8 +155,16 @@ var templates = []string{
 }
 
 func expand(tpl string, sb *gw.Sandbox) string {
-	r := strings.NewReplacer("{area}", sb.Area, "{root}", sb.Root, "{outside}", sb.Outside, "{iam}", sb.IAM)
+	r := strings.NewReplacer("{area}", sb.Area, "{root}", sb.Root, "{outside}", sb.Outside, "{iam}", sb.IAM, "{mp1part}", stagedPart)
 	return r.Replace(tpl)
+}
+
+// stagedPart is the key-shaped name of the first part of the fixture's upload in progress on bkt-a/mp1 (set per world):
+// the backends keep it inside the bucket directory, but it belongs to that upload, not to the key namespace.
+var stagedPart = ".sgwtmp/multipart/unknown"
+
+func stagedPartOf(fx *cat.Fixture) string {
+	return fmt.Sprintf(".sgwtmp/multipart/%x/%s/1", sha256.Sum256([]byte(cat.KeyMP)), fx.UploadID)
 }
 
 // privileged: root and accounts with the admin role may use every bucket; naming another bucket by its
@@ -287,11 +296,14 @@ func execA(c caseA) (v verdict, err error) {
 	if !c.Proc {
 		defer func() { w.eng.Shutdown(); w.sb.Remove() }()
 	}
+	stagedPart = stagedPartOf(w.fx)
 	req, h, err := build(w, c)
 	if err != nil {
 		return v, fmt.Errorf("SETUP: %v", err)
 	}
 	v.Escapes = escapes(w, c, h)
+	stagedFile := filepath.Join(w.sb.Root, w.fx.BktA, stagedPart)
+	stagedBefore, _ := os.ReadFile(stagedFile)
 	// the bucket the request names is the first segment of the path the server decodes;
 	// root is authorised for every bucket, so when root names another bucket by a clean
 	// name that bucket's storage is the one that may change
@@ -319,6 +331,18 @@ func execA(c caseA) (v verdict, err error) {
 	if d := gw.Diff(before, after); len(d) > 0 {
 		// the users file is legitimately rewritten by nothing in this property: no admin mutation is generated with valid semantics
 		return v, fmt.Errorf("%s touched storage outside the bucket it names: %s", pfx, strings.Join(d, "; "))
+	}
+	// the staging area of the upload in progress on mp1 belongs to that upload: no request that names another
+	// object (or names the staging file as if it were a key) may read or change it
+	multipartOnMP := strings.Contains(c.Spec.Op, "Part") || strings.Contains(c.Spec.Op, "Multipart")
+	if stagedAfter, rerr := os.ReadFile(stagedFile); len(stagedBefore) > 0 && !multipartOnMP && (rerr != nil || !bytes.Equal(stagedAfter, stagedBefore)) {
+		return v, fmt.Errorf("%s changed the staged part of another object's multipart upload (%s): %q -> %q (%v)", pfx, stagedPart, stagedBefore, stagedAfter, rerr)
+	}
+	if resp != nil && !multipartOnMP && len(stagedBefore) > 0 && bytes.Contains(resp.Body, stagedBefore) {
+		return v, fmt.Errorf("%s returned the staged part of another object's multipart upload: %q", pfx, trunc(string(resp.Body)))
+	}
+	if resp != nil && resp.Status == 200 && strings.HasPrefix(c.Spec.Op, "List") && (bytes.Contains(resp.Body, []byte("<Key>.sgwtmp")) || bytes.Contains(resp.Body, []byte("<CommonPrefixes><Prefix>.sgwtmp"))) {
+		return v, fmt.Errorf("%s lists names of the backend's staging area: %q", pfx, trunc(string(resp.Body)))
 	}
 	if pe, ok := terr.(*gw.PanicError); ok {
 		v.Site = pe.Site
